@@ -150,9 +150,16 @@ def cov(X, rowvar=True, bias=False):
         X = X.T
     if OPAQUE['cov']:
         ENG.used_stubs.add('np.cov as an uninterpreted symmetric function of the data block (modular; closed form verified on the single-edge configuration)')
-        return opaque_symmetric('Cov_b%d' % int(bool(bias)), list(X.flat), X.shape[1])
+        return _squeeze_like_numpy(opaque_symmetric('Cov_b%d' % int(bool(bias)), list(X.flat), X.shape[1]))
     n = X.shape[0]
     m = np.sum(X, axis=0) / n
     D = X - m
     ENG.used_stubs.add('np.cov := closed form (X-m)^T (X-m) / (n-1+bias)')
-    return D.T.dot(D) / (n - (0 if bias else 1))
+    return _squeeze_like_numpy(D.T.dot(D) / (n - (0 if bias else 1)))
+
+
+def _squeeze_like_numpy(C):
+    """numpy.cov ends with ``c.squeeze()``: the covariance of a single variable
+    is a 0-dimensional array, not a 1x1 matrix."""
+    C = np.asarray(C, dtype=object)
+    return C.squeeze() if C.shape == (1, 1) else C
